@@ -410,7 +410,22 @@ func runC13(c *Ctx) {
 				c.S.Check(okDigest, "R2", construct+".Digest", c.pos(al.Pos()), "Digest = sha512.Sum384(Context.Image)", "manifest entry digest does not derive from SHA-384 of the supplied image")
 				// Path shares a call origin with the path written by an endorsement write reached from f
 				okPath := false
+				okFrom := false
 				if pathVal != nil {
+					// the recorded value itself (or, where the entry is built in a helper, the argument it was handed)
+					idset := map[ssa.Value]bool{}
+					{
+						isl := flow.NewSlicer(c.P)
+						isl.LiftParams = 2
+						isl.Visit(pathVal, func(v ssa.Value) bool {
+							idset[v] = true
+							switch v.(type) {
+							case *ssa.Parameter, *ssa.Phi:
+								return true
+							}
+							return false
+						}, nil)
+					}
 					// the entry may be built in a helper that is handed the basename: origins are followed to the
 					// helper's call sites, and the write is looked for in the helper and in its callers
 					lsl2 := flow.NewSlicer(c.P)
@@ -453,12 +468,16 @@ func runC13(c *Ctx) {
 								if ex, ok := v.(*ssa.Extract); ok && po[ex.Tuple] {
 									okPath = true
 								}
-								return !okPath
+								if idset[v] {
+									okFrom = true
+								}
+								return !(okPath && okFrom)
 							}, nil)
 						}
 					}
 				}
 				c.S.Check(okPath, "R2", construct+".Path", c.pos(al.Pos()), "Path and the written file path share one basename origin", "manifest entry path and the path of the endorsement file written do not derive from one basename value")
+				c.S.Check(okFrom, "R2", construct+".Path is what the file path is made of", c.pos(al.Pos()), "the path written is computed from the very value recorded as Path", "the manifest entry's Path is not the value the written file's path is computed from (it is derived separately, e.g. cut back out of the full path): for a name with a directory part the entry names another file than the one written")
 			}
 		}
 	}
